@@ -48,5 +48,24 @@ def SoundFor (domain : List (DomVar (Ext K))) (cs : List (Constraint (Ext K)))
     (vb : List (String × Bounds (Ext K))) : Prop :=
   ∀ ρ, SrcFeasible domain cs ρ → InBox ρ vb
 
+/-- every literal of the expression is a finite number (`FiniteLits` of DESIGN.md §6 C07/C08). -/
+def finiteLit : Ext K → Bool
+  | .fin _ => true
+  | _ => false
+mutual
+def finiteLits : Exp (Ext K) → Bool
+  | .num v => finiteLit v
+  | .var _ => true
+  | .abs e | .not e | .un _ e => finiteLits e
+  | .min es | .max es | .and es | .or es => finiteLitsList es
+  | .xor a b | .implies a b | .iff a b | .bin _ a b => finiteLits a && finiteLits b
+def finiteLitsList : List (Exp (Ext K)) → Bool
+  | [] => true
+  | e :: es => finiteLits e && finiteLitsList es
+end
+
+/-- neither endpoint is NaN. -/
+def NoNaN (b : Bounds (Ext K)) : Prop := Ext.isNaN b.lower = false ∧ Ext.isNaN b.upper = false
+
 end BoundsSem
 end Rooc
